@@ -41,7 +41,7 @@ def path_str(r, idxs):
 def cases(ctx):
     r = ctx.rnd
     t = ctx.tier == "thorough"
-    for i in range(120 if t else 16):
+    for i in range(600 if t else 16):
         sl = r.choice([16, 17, 24, 32, 33, 48, 63, 64]) if r.random() < 0.7 else r.choice([1, 15, 65, 128, 1000])
         seed = gen.rbytes(r, sl)
         steps = []
@@ -67,7 +67,7 @@ def cases(ctx):
                 yield {"k": "chain", "seed": seed.hex(), "steps": steps, "neuter_at": 300, "deep": True}
                 idxs = [r.getrandbits(32) for _ in range(255)]
                 yield {"k": "chain", "seed": seed.hex(), "steps": [{"path": path_str(r, idxs), "idxs": idxs}], "neuter_at": 300, "deep": True}
-    for i in range(25 if t else 2):
+    for i in range(100 if t else 2):
         seed = gen.rbytes(r, 32)
         m = bip32.master(seed)
         if m is None:
